@@ -14,6 +14,51 @@ META = {
 }
 
 
+def index_tracks(chk, facts, rule='index-tracks-event-counter'):
+    # the index into the precomputed hop table moves in lock step with the connection event counter
+    from .lib.linear import Lin, lin
+    CS = 'bluetoe::link_layer::details::connection_state_base::'
+    maxlat = None
+    for fn in [f for f in facts.functions if f.q.startswith(CS) and f.kind == 'pattern']:
+        ci = [(op, val, st) for tgt, op, val, st in stores(fn.body) if target_name(tgt) == 'channel_index_']
+        ec = [(op, val, st) for tgt, op, val, st in stores(fn.body) if target_name(tgt) == 'event_counter_']
+        if not ci and not ec:
+            continue
+        probs = []
+        if len(ci) != 1 or len(ec) != 1:
+            probs.append('%d store(s) to channel_index_ and %d to event_counter_: the two are not updated as a pair' % (len(ci), len(ec)))
+        else:
+            (cop, cv, cst), (eop, ev, est) = ci[0], ec[0]
+            step = Lin(1) if eop == '++' else (lin(fn, ev) if eop == '+=' else None)
+            if eop == '=' and cval(ev) == 0:
+                if not (cop == '=' and cval(cv) == 0):
+                    probs.append('event counter reset without hop index reset')
+            elif step is None:
+                probs.append('event counter update %s not recognised' % est.text()[:40])
+            else:
+                b = as_binop(cv)
+                if not (cop == '=' and b and b[0] == '%' and cval(b[2]) == 37):
+                    probs.append('hop index is not advanced modulo 37')
+                else:
+                    x = lin(fn, b[1])
+                    rest = (x - Lin(0, {'channel_index_': 1}) - step) if x is not None else None
+                    if rest is None or rest.t:
+                        probs.append('hop index advances by %s while the event counter advances by %s' % (x, step))
+                    else:
+                        k = rest.c
+                        signed = any(p['n'] in step.t and p['t'].strip() in ('int', 'long', 'short') for p in fn.params)
+                        if k % 37 != 0:
+                            probs.append('hop index advances by %d more than the event counter (mod 37)' % (k % 37))
+                        elif signed:
+                            # step can be negative, down to -maximum_link_layer_peripheral_latency (asserted by the function, granted by link_layer's parameter check)
+                            if k < SPEC_MAX_LATENCY:
+                                probs.append('the step is signed (down to -499 = -maximum_link_layer_peripheral_latency) but only %d is added before the unsigned modulo: for steps below -(channel_index_ + %d) the sum wraps at 2^32, which is not a multiple of 37 - the hop index is off by 7 from then on' % (k, k))
+        for st in ci[:1] + ec[:1]:
+            pass
+        chk.instance(rule, fn, '%s: channel_index_ and event_counter_ move together' % fn.name, not probs, '; '.join(probs), key=fn.name)
+
+
+
 def run(chk, facts, tier):
     chk.rule('reset-validates-first', 'channel_map::reset(map, hop): every store to map_ and `return true` are control dependent on !(hop < 5 || hop > 16) and !(used_channels_count < 2)', floor=3)
     chk.rule('csa1-shape', 'unmapped channel advances by hop modulo 37 from hop; used channel -> itself, unused -> used_channels[unmapped % count]; used_channels collected ascending by channel', floor=3)
@@ -66,47 +111,7 @@ def run(chk, facts, tier):
         st = [(tgt, val) for tgt, op, val, s in stores(fn.body) if target_name(tgt) == 'used']
         ok = ok and len(st) == 1 and is_name(strip_casts(st[0][0]).c[1], 'count')
         chk.instance('csa1-shape', fn, 'used[count++] = channel for ascending channel', ok, '' if ok else 'used channel list is not built in ascending order', key='used list')
-    # the index into the precomputed hop table moves in lock step with the connection event counter
-    from .lib.linear import Lin, lin
-    CS = 'bluetoe::link_layer::details::connection_state_base::'
-    maxlat = None
-    for fn in [f for f in facts.functions if f.q.startswith(CS) and f.kind == 'pattern']:
-        ci = [(op, val, st) for tgt, op, val, st in stores(fn.body) if target_name(tgt) == 'channel_index_']
-        ec = [(op, val, st) for tgt, op, val, st in stores(fn.body) if target_name(tgt) == 'event_counter_']
-        if not ci and not ec:
-            continue
-        probs = []
-        if len(ci) != 1 or len(ec) != 1:
-            probs.append('%d store(s) to channel_index_ and %d to event_counter_: the two are not updated as a pair' % (len(ci), len(ec)))
-        else:
-            (cop, cv, cst), (eop, ev, est) = ci[0], ec[0]
-            step = Lin(1) if eop == '++' else (lin(fn, ev) if eop == '+=' else None)
-            if eop == '=' and cval(ev) == 0:
-                if not (cop == '=' and cval(cv) == 0):
-                    probs.append('event counter reset without hop index reset')
-            elif step is None:
-                probs.append('event counter update %s not recognised' % est.text()[:40])
-            else:
-                b = as_binop(cv)
-                if not (cop == '=' and b and b[0] == '%' and cval(b[2]) == 37):
-                    probs.append('hop index is not advanced modulo 37')
-                else:
-                    x = lin(fn, b[1])
-                    rest = (x - Lin(0, {'channel_index_': 1}) - step) if x is not None else None
-                    if rest is None or rest.t:
-                        probs.append('hop index advances by %s while the event counter advances by %s' % (x, step))
-                    else:
-                        k = rest.c
-                        signed = any(p['n'] in step.t and p['t'].strip() in ('int', 'long', 'short') for p in fn.params)
-                        if k % 37 != 0:
-                            probs.append('hop index advances by %d more than the event counter (mod 37)' % (k % 37))
-                        elif signed:
-                            # step can be negative, down to -maximum_link_layer_peripheral_latency (asserted by the function, granted by link_layer's parameter check)
-                            if k < SPEC_MAX_LATENCY:
-                                probs.append('the step is signed (down to -499 = -maximum_link_layer_peripheral_latency) but only %d is added before the unsigned modulo: for steps below -(channel_index_ + %d) the sum wraps at 2^32, which is not a multiple of 37 - the hop index is off by 7 from then on' % (k, k))
-        for st in ci[:1] + ec[:1]:
-            pass
-        chk.instance('index-tracks-event-counter', fn, '%s: channel_index_ and event_counter_ move together' % fn.name, not probs, '; '.join(probs), key=fn.name)
+    index_tracks(chk, facts)
 
     for fn in variants(facts, 'bluetoe::link_layer::link_layer::adv_received', chk):
         st = [s for tgt, op, val, s in stores(fn.body) if is_name(tgt, 'state_') and strip_casts(val).n == 'connecting']
